@@ -103,14 +103,8 @@ def inverse_tables(repo: Repo, R):
     # pulse parameter renaming
     fep = repo.func(F_EXPORT, "export_primitive_params")
     fip = repo.func(F_IMPORT, "import_primitive_params")
-    ed = None
-    for n in au.walk_no_nested(fep.node):
-        if isinstance(n, ast.Return) and isinstance(n.value, ast.Call) and dotted(n.value.func) == "dict" and n.value.keywords:
-            ed = {k.arg: ast.unparse(k.value) for k in n.value.keywords}
-    idd = None
-    for n in au.walk_no_nested(fip.node):
-        if isinstance(n, ast.Return) and isinstance(n.value, ast.Call) and dotted(n.value.func) == "dict" and n.value.keywords:
-            idd = {k.arg: ast.unparse(k.value) for k in n.value.keywords}
+    ed = pf.returned_mapping(fep)
+    idd = pf.returned_mapping(fip)
     if ed is None or idd is None:
         raise AnalysisError("idiom-unknown: pulse parameter renaming dicts")
     fields = pf.paramclass_fields(repo, F_PRIMS, "PulseVoltageSourceParams")
